@@ -7,7 +7,7 @@ x0 shift, change of variables), final statements in Props/C12.v.
 
 Correspondence = CERTIFICATE CHECKING (Corr/CheckC12.v): for random small dense
 problems (integer / Gaussian-integer entries, 0-3 regularisers with data,
-weights, epsI, epsRs, NRegs/epsNRs, x0 in {None, zeros, random}, engines scipy
+weights, epsI (also negative), epsRs, NRegs/epsNRs, x0 in {None, zeros, random}, engines scipy
 and pylops) the real implementation is run with tight tolerances; Coq computes
 N and rhs of the DOCUMENTED problem exactly over Qc / Gaussian Qc and checks
 ||N x_impl - rhs||_inf <= tol*scale for every returned x, compares
@@ -29,20 +29,14 @@ TOLM = 1e-9       # assembled matrices / data (exact up to rounding)
 TOLX = 1e-7       # backward error of returned models
 COND_MAX = 1e5
 EPS_R = [0.5, 1.0, 1.5, 2.0, 0.25, 3.0]
-EPS_I = [0.0, 0.0, 0.5, 1.0, 2.0, 0.25]
+EPS_I = [0.0, 0.0, 0.5, 1.0, 2.0, 0.25, -1.0, -0.5]
 EPS_N = [0.5, 1.0, 2.0]
 ENGINES = ("scipy", "pylops")
 X0KINDS = ("none", "zeros", "random")
 CANARY_ID = 999999
 
-# Genuine low-severity deviation of the unchanged tree (see report): proposed
-# entry for known_findings.json.
-PROPOSED_KNOWN = [
-    {"id": "C12-negative-epsI",
-     "what": "NormalEquationsInversion.setup adds epsI**2*I only `if epsI > 0`: a negative epsI is silently "
-             "ignored although the documented normal equations contain epsI^2 I",
-     "trigger": {"solver": "NE", "epsI": "< 0"}},
-]
+# no open findings (the `if epsI > 0` guard was fixed in /repo af33707: `if epsI != 0`)
+PROPOSED_KNOWN = []
 
 MY_V = ["Solvers/LeastSquares.v", "Corr/CheckC12.v", "Props/C12.v"]
 
@@ -606,10 +600,6 @@ def search(pb, rec):
 
 
 def replay(rp):
-    if rp.get("kind") == "negative-epsI":
-        bad = probe_negative_epsI() is not None
-        print("reproduced" if bad else "not reproduced")
-        return 1 if bad else 0
     if rp.get("kind") == "exception":
         pb = deser(rp["problem"])
         t = rp["call"]
@@ -631,20 +621,6 @@ def replay(rp):
     print("dense normal eq. x  =", xe)
     print("reproduced" if bad else "not reproduced")
     return 1 if bad else 0
-
-
-def probe_negative_epsI():
-    """Documented N contains epsI^2 I for every real epsI; the code tests epsI > 0."""
-    import pylops
-    from pylops.optimization.leastsquares import normal_equations_inversion
-    A = np.array([[1.0, 2.0], [0.0, 1.0], [1.0, -1.0]])
-    y = np.array([1.0, 2.0, 3.0])
-    x = normal_equations_inversion(pylops.MatrixMult(A), y, None, epsI=-1.0, rtol=1e-14, maxiter=50)[0]
-    xd = np.linalg.solve(A.T @ A + np.eye(2), A.T @ y)
-    if np.abs(x - xd).max() > 1e-6:
-        return {"kind": "negative-epsI", "epsI": -1.0, "A": A.tolist(), "y": y.tolist(), "returned": x.tolist(),
-                "expected_dense_solve": xd.tolist(), "solution_with_epsI_0": np.linalg.solve(A.T @ A, A.T @ y).tolist()}
-    return None
 
 
 # ------------------------------------------------------------------ main
@@ -681,7 +657,7 @@ def main(tier):
             9: "coinciding formulations returned different models", 10: "code-shaped model of Op_normal/y_normal differs from (N, rhs)"}
     nsolves = 0
     nontriv = set()
-    dist = {"real": 0, "complex": 0, "nregs": {}, "weight": {}, "epsI>0": 0, "NRegs>0": 0, "dataregs=None": 0, "epsRs=None": 0,
+    dist = {"real": 0, "complex": 0, "nregs": {}, "weight": {}, "epsI>0": 0, "epsI<0": 0, "NRegs>0": 0, "dataregs=None": 0, "epsRs=None": 0,
             "with PI": 0, "rejected_ill_conditioned": 0, "m<n": 0}
     ncert = 0
     nfail_cert = 0
@@ -690,6 +666,7 @@ def main(tier):
         dist["nregs"][str(len(pb["regs"]))] = dist["nregs"].get(str(len(pb["regs"])), 0) + 1
         dist["weight"][pb["wkind"]] = dist["weight"].get(pb["wkind"], 0) + 1
         dist["epsI>0"] += pb["epsI"] > 0
+        dist["epsI<0"] += pb["epsI"] < 0
         dist["NRegs>0"] += len(pb["Ms"]) > 0
         dist["dataregs=None"] += pb["ds"] is None
         dist["epsRs=None"] += pb["epsRs"] is None
@@ -721,11 +698,6 @@ def main(tier):
                         {"problem": ser(pb), "codes": c,
                          "broken": "Corr.CheckC12.check codes %s vs theorems C12_assembly_normal_correct_partial / C12_stack_normal_eq" % c},
                         no_input=True)
-    # documented epsI^2 with negative epsI (low severity, proposed known finding)
-    neg = probe_negative_epsI()
-    if neg is not None:
-        R.known_finding(PROPOSED_KNOWN[0]["id"], PROPOSED_KNOWN[0]["what"])
-        R.notes.append({"proposed_known": PROPOSED_KNOWN[0], "witness": neg})
     coqchk = None
     if tier == "thorough":
         p = subprocess.run(["timeout", "900", "coqchk", "-silent", "-o", "-Q", "theories", "PV", "PV.Props.C12"], cwd=common.COQDIR,
